@@ -232,6 +232,11 @@ func (c *Config) handleSvcEndpointUpdate(svcName string, added, removed []*servi
 	if sw.Config == nil {
 		return
 	}
+	// nothing is known about the endpoints yet (only removals of unknown
+	// endpoints so far): wait for the first real endpoint list.
+	if oldEndpoints == nil && sw.Endpoints == nil {
+		return
+	}
 	switch oldEndpoints {
 	case nil:
 		c.emitSvcAddEvent(sw)
